@@ -265,6 +265,26 @@ func headerCases(thorough bool) []kase {
 			wrap(fmt.Sprintf(form.tmpl, "// +build "+x+"\n"), form.class+" plusbuild")
 		}
 	}
+	// constraint-looking comments after the package clause are ordinary comments for the toolchain
+	whole := func(src, class string) {
+		for _, tags := range tagSets {
+			uses := strings.Contains(src, " a") || strings.Contains(src, "!a")
+			if len(tags) > 0 && !uses {
+				continue
+			}
+			ks = append(ks, kase{Kind: "header", Src: src, Tags: tags, Class: class + fmt.Sprintf(" tags=%v", tags)})
+		}
+	}
+	for _, x := range []string{"windows", "!windows", "a", "linux", "ignore"} {
+		for _, syn := range []struct{ name, line string }{{"gobuild", "//go:build " + x}, {"plusbuild", "// +build " + x}} {
+			whole("package p\n\n"+syn.line+"\n\nimport \"fmt\"\n\nvar _ = fmt.Sprint\n", "placement after-package-clause before-import "+syn.name)
+			whole("package p\n"+syn.line+"\n", "placement after-package-clause glued "+syn.name)
+			whole("package p\n\n"+syn.line+"\n\nvar V int\n", "placement after-package-clause before-decl "+syn.name)
+			whole("package p "+syn.line+"\n", "placement after-package-clause same-line "+syn.name)
+			whole("//go:build linux\n\npackage p\n\n"+syn.line+"\n", "placement header-before-and-comment-after "+syn.name)
+			whole("// Package p.\npackage p\n\n// Details:\n"+syn.line+"\nvar V int\n", "placement after-package-clause in-decl-doc "+syn.name)
+		}
+	}
 	return ks
 }
 
@@ -360,7 +380,7 @@ func main() {
 	r.Set("headers_without_model_answer", res.Counts["model_rejects_header"])
 	r.Set("distinct_nontrivial", len(res.Sets["name_answers"])+len(res.Sets["header_answers"])+len(res.Sets["e2e_answers"]))
 	r.Set("exhaustive", true)
-	r.Set("rule", "names: every word of go/build's OS and architecture lists + unix + unknown words in the last one and two _ positions (and with a third leading word), with and without _test, _/. prefixes, loading with and without tests; headers: all boolean expressions of depth <= 2 over literals of 15 atoms in //go:build and // +build syntax (or / and / two lines), both syntaxes together, yaegi:tags, 8 placements, x tag sets over {a,b}; e2e: packages on a MapFS loaded by EvalPath. distinct_nontrivial = distinct model answers observed per dimension (true/false, file sets)")
+	r.Set("rule", "names: every word of go/build's OS and architecture lists + unix + unknown words in the last one and two _ positions (and with a third leading word), with and without _test, _/. prefixes, loading with and without tests; headers: all boolean expressions of depth <= 2 over literals of 15 atoms in //go:build and // +build syntax (or / and / two lines), both syntaxes together, yaegi:tags, 8 placements before and 6 after the package clause, x tag sets over {a,b}; e2e: packages on a MapFS loaded by EvalPath. distinct_nontrivial = distinct model answers observed per dimension (true/false, file sets)")
 	r.Assumptions = []string{"go/build.Context.MatchFile on a copy of the interpreter's own build context is the reference", "headers that go/build itself reports as malformed have no model answer and are skipped (counted)"}
 	for _, i := range []int{3, nNames + 5, len(ks) - 1} {
 		r.Sample(ks[i])
